@@ -4,9 +4,9 @@ package storage
 
 import "github.com/dgraph-io/badger/v4"
 
-// VerifDumpDB returns every key/value pair of the snapshots database in key order
+// VerifC15DumpDB returns every key/value pair of the snapshots database in key order
 // (read-only; used by the verification harness to compare whole-database states).
-func (s *BadgerStore) VerifDumpDB() (keys [][]byte, vals [][]byte, err error) {
+func (s *BadgerStore) VerifC15DumpDB() (keys [][]byte, vals [][]byte, err error) {
 	txn := s.snapshotsDB.NewTransaction(false)
 	defer txn.Discard()
 
